@@ -32,6 +32,9 @@ def run(ctx):
 
         parse_summary(ctx, v, RelabelLedger(led, "C08.model", keep=("C04.store.key", "C04.store.value", "C04.store"), strip="C04."))
         check_rh_emit(ctx, RelabelLedger(led, "C08.rh", strip="C12."), v)
+        from ..rules_access import check_accessors
+
+        check_accessors(ctx, led, v, rules=("pure",), prefix="C08.pure", only=("clean_vector", "rh_vector"))
     # the builder: each asked metric answered exactly once with a table spelling, right prefix
     from ..rules_inter import check_c16
     from ..rules_parse import RelabelLedger
